@@ -78,7 +78,7 @@ type World struct {
 	seq int
 }
 
-var pureFns = map[string]bool{"Ff": true, "CI": true, "CS": true, "CB": true, "C64": true, "OpA": true, "OpB": true}
+var pureFns = map[string]bool{"CL": true, "Tup": true, "PtrM": true, "Ff": true, "CI": true, "CS": true, "CB": true, "C64": true, "OpA": true, "OpB": true}
 
 func NewWorld(stateful bool, faults []CallFault, poison []PoisonFault) *World {
 	return &World{Stateful: stateful, Phase: "run", faults: faults, poison: poison}
@@ -236,6 +236,10 @@ type Env struct {
 	Any        interface{}
 	Fn         func(int) int
 	Objs       []*Obj
+	// Info / Index: in the map representation these are ALSO present under the
+	// lower-case keys "info" and "index" (identifiers that begin with "in").
+	Info  bool
+	Index int
 
 	// Members of other numeric kinds (derived from the data above): operands of
 	// every static type for the optimiser's rewrites (C02 typed-operand probes).
@@ -318,6 +322,30 @@ func (e Env) Va(xs ...interface{}) interface{} {
 		}
 	}
 	return small(sum*3) + e.w.salt(idx)
+}
+
+// Level is a named integer type returned through interface{}.
+type Level int
+
+// CL is pure and returns a named integer type as interface{} (ConstExpr candidate).
+func (e Env) CL(i int) interface{} {
+	_, _ = e.w.enter("CL", i)
+	defer e.w.leave("CL")
+	return Level(i)
+}
+
+// Tup has the fast-call shape and KEEPS its variadic slice: it returns it.
+func (e Env) Tup(xs ...interface{}) interface{} {
+	_, _ = e.w.enter("Tup", xs...)
+	defer e.w.leave("Tup")
+	return xs
+}
+
+// PtrM has a pointer receiver: it exists for *Env (and the map), not for Env.
+func (e *Env) PtrM(a int) int {
+	_, _ = e.w.enter("PtrM", a)
+	defer e.w.leave("PtrM")
+	return a + 1
 }
 
 // An takes two interface{} parameters (nil is a legal argument) and is called
@@ -471,6 +499,8 @@ func BuildEnv(w *World, d *EnvData) *Env {
 	if d.Ss != nil {
 		e.Ss = append([]string{}, d.Ss...)
 	}
+	e.Info = d.P != d.Q
+	e.Index = d.K
 	e.U8 = uint8((d.A + 8) * 15)
 	e.U16 = uint16(d.B+8) * 4000
 	e.I8 = int8(d.C * 40)
@@ -512,6 +542,7 @@ func (e *Env) AsRep(rep string) interface{} {
 			"P": e.P, "Q": e.Q, "S": e.S, "T": e.T, "Re": e.Re,
 			"Xs": e.Xs, "Ys": e.Ys, "Ss": e.Ss, "Mp": e.Mp, "O": e.O, "On": e.On, "Any": e.Any,
 			"Fn": e.Fn, "Objs": e.Objs,
+			"Info": e.Info, "Index": e.Index, "info": e.Info, "index": e.Index, "CL": e.CL, "Tup": e.Tup, "PtrM": e.PtrM,
 			"U8": e.U8, "U16": e.U16, "I8": e.I8, "I64": e.I64, "F64": e.F64, "F32": e.F32, "Ff": e.Ff,
 			"F1": e.F1, "F2": e.F2, "G0": e.G0, "P1": e.P1, "S1": e.S1, "Mk": e.Mk, "Va": e.Va,
 			"An": e.An, "OpA": e.OpA, "OpB": e.OpB, "C64": e.C64, "CI": e.CI, "CS": e.CS, "CB": e.CB,
